@@ -234,6 +234,20 @@ Theorem c05_scans : forall c i,
      forall x, In x c -> is_qpd1 x = false).
 Proof. intros c i. split; [apply mapping_scan_spec|apply get_bases_spec]. Qed.
 
+(* the coefficient of cut k is taken from bases[k]: `bases` lists the stored bases by ascending cut id, the circuits
+   use joint[k] — the two agree because a successful projection only uses cut ids below len(joint) = len(bases),
+   and then the ids are exactly 0..n-1 and position k of `bases` holds the basis of a placeholder labelled _k *)
+Theorem c05_bases_aligned : forall d,
+  (forall x k, In x (all_instrs d) -> suffix_of x = Some (Some k) -> k < length (bases_by_partition d)) ->
+  forall x k, In x (all_instrs d) -> suffix_of x = Some (Some k) ->
+    exists b, nth_error (bases_by_partition d) k = Some b /\
+              exists x', In x' (all_instrs d) /\ cut_of x' = Some (k, b).
+Proof. exact bases_aligned. Qed.
+
+Theorem c05_project_bound : forall joint sfx ms k,
+  project joint sfx = Ok ms -> In k sfx -> k < length joint.
+Proof. exact project_bound. Qed.
+
 (* ------------------------------------------------------------------------------------------------
    7. refusals, in source order *)
 Theorem c05_refuse_types : forall gh gsx env cenv qc d gs od N W,
@@ -368,6 +382,8 @@ Print Assumptions c05_observable_bits.
 Print Assumptions c05_qpd_bits.
 Print Assumptions c05_projection.
 Print Assumptions c05_scans.
+Print Assumptions c05_bases_aligned.
+Print Assumptions c05_project_bound.
 Print Assumptions c05_refuse_types.
 Print Assumptions c05_refuse_num_samples.
 Print Assumptions c05_refuse_suffix.
